@@ -1,5 +1,5 @@
 """Check C16: after losing its connection the client resynchronises completely."""
-import json, os, random, time
+import json, os, random, re, time
 from common import *
 import txnfam, findings
 
@@ -76,22 +76,60 @@ def run_shards(vh, cases):
 
     def one(sh):
         with Scratch("reconn") as sc:
-            with open(sc.path("cases.ndjson"), "w") as f:
-                for c in sh:
-                    f.write(json.dumps(c) + "\n")
-            rc, o, e = run([vh, "reconn-cases", "-cases", sc.path("cases.ndjson"), "-o", sc.path("trace.ndjson"), "-stats", sc.path("stats.ndjson"),
-                            "-schema-out", sc.path("schema.abs.json")], timeout=3000)
-            if rc != 0:
-                raise Broken("vh reconn-cases failed: " + e[-3000:])
-            res = txnfam.validate_trace(sc.dir, timeout=3000)
-            trace = txnfam.read_trace(sc.path("trace.ndjson"))
-            stats = [json.loads(l) for l in open(sc.path("stats.ndjson")) if l.strip()]
-            resets = [i for i, ev in enumerate(trace) if ev["ev"] == "reset"]
-            res["cases"] = []
+            lines, stats, ran, crashes = [], [], [], []
+            start = 0
+            while start < len(sh):
+                with open(sc.path("cases.ndjson"), "w") as f:
+                    for c in sh[start:]:
+                        f.write(json.dumps(c) + "\n")
+                for fn in ("part.ndjson", "pstats.ndjson"):
+                    if os.path.exists(sc.path(fn)):
+                        os.remove(sc.path(fn))
+                rc, o, e = run([vh, "reconn-cases", "-cases", sc.path("cases.ndjson"), "-o", sc.path("part.ndjson"), "-stats", sc.path("pstats.ndjson"),
+                                "-schema-out", sc.path("schema.abs.json")], timeout=3000)
+                pst = [json.loads(l) for l in open(sc.path("pstats.ndjson")) if l.strip()] if os.path.exists(sc.path("pstats.ndjson")) else []
+                part = []
+                if os.path.exists(sc.path("part.ndjson")):
+                    for l in open(sc.path("part.ndjson")):
+                        try:
+                            part.append(json.loads(l))
+                        except ValueError:
+                            pass
+                if rc == 0:
+                    lines += part
+                    stats += pst
+                    ran += list(range(start, len(sh)))
+                    break
+                # the client panicking takes the harness process with it: that is an observation about the case
+                # that was running, the others are run again after it
+                if "panic:" not in e or "libovsdb/client" not in e:
+                    raise Broken("vh reconn-cases failed: " + e[-3000:])
+                done = len(pst)
+                resets = [i for i, ev in enumerate(part) if ev["ev"] == "reset"]
+                keep = resets[done] if done < len(resets) else len(part)
+                lines += part[:keep]
+                stats += pst
+                ran += list(range(start, start + done))
+                m = re.search(r"(panic: .*?)\n\n", e, re.S)
+                crashes.append({"mismatch": {"prop": "C16", "line": 0, "what": "the client panicked while its connection was being lost or restored",
+                                             "detail": {"msg": (m.group(1) if m else e[-1500:])[:1500]}}, "reconn": sh[start + done]})
+                start = start + done + 1
+                if len(crashes) >= 4:
+                    break
+            with open(sc.path("trace.ndjson"), "w") as f:
+                for ev in lines:
+                    f.write(json.dumps(ev) + "\n")
+            if lines:
+                res = txnfam.validate_trace(sc.dir, timeout=3000)
+            else:
+                res = {"mismatches": [], "notes": [], "states": 0, "transitions": 0, "events": 0}
+            resets = [i for i, ev in enumerate(lines) if ev["ev"] == "reset"]
+            res["cases"] = list(crashes)
             for m in res["mismatches"]:
                 k = max(j for j, pos in enumerate(resets) if pos < m["line"])
-                res["cases"].append({"mismatch": m, "reconn": sh[k]})
-            res["runs"] = len(stats)
+                res["cases"].append({"mismatch": m, "reconn": sh[ran[k]]})
+            res["mismatches"] = res["mismatches"] + [c["mismatch"] for c in crashes]
+            res["runs"] = len(stats) + len(crashes)
             res["faults_fired"] = sum(s["fired"] for s in stats)
             res["markers"] = sum(s["markers"] for s in stats)
             res["sample"] = {"case": sh[0], "stats": stats[0]} if stats else None
@@ -121,7 +159,8 @@ def run_check(prop, tier):
     rnd.shuffle(cases)
     multi = [c for c in cases if len(c["methods"]) > 1]
     single = [c for c in cases if len(c["methods"]) == 1]
-    sel = (multi[:180] + single[:60]) if tier == "quick" else cases
+    gated = [c for c in cases if any(f["kind"] == "gated" for f in c["faults"])]
+    sel = (gated + [c for c in multi if c not in gated][:160] + [c for c in single if c not in gated][:50]) if tier == "quick" else cases
     res = run_shards(vh, sel)
     lcov, lcases = leader_model_check()
     lsh = [lcases[i::8] for i in range(8)]
